@@ -52,6 +52,23 @@ def generate(rng, tier):
             back = P.add('ASub', r.below(4), ab, b)
             preds.append(('roundtrip_total', [a, back, ['#', 2]]))
             cases.append(Case(P, preds, 'blade-diff'))
+    # dense small-difference table: every blade difference in [-9, 9] x every remainder gap class x both
+    # orientations (the borrow / snap / lift logic has a different branch in almost every cell)
+    gaps = [0.0, 5e-17, 3e-16, 9e-16, 1e-15, 2e-15, 1e-12, 5e-11, 9e-11, 1e-10, 1.1e-10, 1e-9]
+    rng2 = rng.fork(5 * 10**6)
+    for d in range(-9, 10):
+        P = Prog(); preds = []
+        base = rng2.choice([0, 3, 1000]) + 9
+        for g in gaps:
+            lo = rng2.choice([0.5, 0.25, 1.0, 0.1])
+            for (ra, rb) in ((lo + g, lo), (lo, lo + g)):
+                a = angle_rem(P, ra, base + max(d, 0)); b = angle_rem(P, rb, base + max(-d, 0))
+                s_ = P.add('ASub', rng2.below(4), a, b)
+                preds += [('sub_total', [a, b, s_]), ('canon_angle', [s_])]
+                if d >= 0 and ra >= rb:
+                    back = P.add('AAdd', 0, s_, b)
+                    preds.append(('roundtrip_total', [a, back, ['#', 2]]))
+        cases.append(Case(P, preds, 'dense-diff'))
     # scalar division
     n = 120 if tier == 'quick' else 3000
     for j in range(n):
